@@ -73,6 +73,19 @@ func (g *G) TimerCase(impl string) TimerCase {
 		if maxDelay < 120 {
 			maxDelay = 120
 		}
+		// life goes on after the restart: further requests, the reported set, another restart
+		if g.P(2, 3) {
+			pre := c.Script[len(c.Script)-3].Id
+			tag++
+			c.Script = append(c.Script, TimerStep{Do: "add", Id: g.PickS(timerIds...), Delay: 70, Tag: tag})
+			if g.P(1, 2) {
+				c.Script = append(c.Script, TimerStep{Do: "rem", Id: pre})
+			}
+			c.Script = append(c.Script, TimerStep{Do: "pending"})
+			if g.P(1, 2) {
+				c.Script = append(c.Script, TimerStep{Do: "sleep", Ms: 10}, TimerStep{Do: "restart"}, TimerStep{Do: "pending"})
+			}
+		}
 	}
 	c.Script = append(c.Script, TimerStep{Do: "sleep", Ms: maxDelay + 90}, TimerStep{Do: "pending"})
 	return c
